@@ -27,7 +27,7 @@ SB_OP(rth)
             add(out, std::to_string((int)qrc) + "," + fbits(pt.x) + "," + fbits(pt.y));
         } else if (q[0] == 'e') {
             sb_rth_plan_entry_t e;
-            memset(&e, 0, sizeof(e));
+            memset(&e, SBH_FILL, sizeof(e));
             sb_error_t qrc = sb_rth_plan_evaluate_at(&plan, tokf(q.substr(1)), &e);
             if (qrc != SB_SUCCESS)
                 add(out, std::to_string((int)qrc));
